@@ -77,8 +77,8 @@ def main():
                         except Exception:
                             pass
                     break
-        res["caught_by"] = [p for p in props if any(t["rc"] != 0 for t in res["checks"][p].values())]
-        res["caught_with_failing_input"] = [p for p in props if any(t["rc"] != 0 and not any("no-failing-input-found" in l for l in t["lines"]) for t in res["checks"][p].values())]
+        res["caught_by"] = [p for p in props if any(t["rc"] != 0 and any(l.startswith("VIOLATION") for l in t["lines"]) for t in res["checks"][p].values())]
+        res["caught_with_failing_input"] = [p for p in props if any(t["rc"] != 0 and any(l.startswith("VIOLATION") for l in t["lines"]) and not any("no-failing-input-found" in l for l in t["lines"]) for t in res["checks"][p].values())]
     finally:
         sh(f"git -C /repo worktree remove --force {wt}")
     return res
